@@ -238,7 +238,8 @@ Ops == {[a |-> "deleteRange", keys |-> ks, lo |-> lo, hi |-> hi] :
        \cup {[a |-> "delete", keys |-> ks, lo |-> NegInf, hi |-> PosInf] : ks \in SUBSET K \ {{}}}
 GoodOp(op) == op.lo <= op.hi
 
-Next == \/ \E op \in Ops : GoodOp(op) /\ Begin(op)
+BeginAny == \E op \in Ops : GoodOp(op) /\ Begin(op)
+Next == \/ BeginAny
         \/ Copy \/ Flush \/ Fsync \/ Rename \/ SyncDir \/ Apply
         \/ CrashReopen
         \/ Reopen
